@@ -52,8 +52,12 @@ CHECKS = {
         technique='Lean 4 proof (counting invariant of the fifo_stream / Buffer LTS models) + schedule-controlled trace refinement',
         text='C08_fifo_lookahead: pulled - handed <= cap+3 in every reachable state, for every schedule, cap, conc, n; '
              'C08_parmap_lookahead (cap = 2*conc); C08_concurrency. The bound is attained (non-vacuity example). '
-             'Tie and monitors (look-ahead at every pull, concurrent calls) as for C01.',
-        note=E1 + 'the pool\'s own concurrency limit is an assumption about the stdlib executor (start guard of the model).',
+             'Tie and monitors (look-ahead at every pull, concurrent calls) as for C01; real-process pools sampled (E4); '
+             'async worker functions: the concurrency clause is FALSE for the code as it is (known finding F35, '
+             'kernel-checked witness C08_async_workers_unlimited_witness over the async model, monitors on the real '
+             'ParmapperAsync / AsyncParmapperAsync under E1 / E2); everything beyond that envelope is reported.',
+        note=E1 + 'the pool\'s own concurrency limit is an assumption about the stdlib executor (start guard of the model). '
+                  'PARTIAL for async worker functions (F35: limited by the hand-off capacity 2*concurrency+3 only).',
         ref='§5 C08', engine='E1-detsched+lean'),
     'C09': dict(
         technique='Lean 4 proof (inductive invariants, counting argument, progress + decreasing measure over an LTS model of the batching worker) + schedule-controlled full-trace replay of the real Worker code through the model',
